@@ -284,17 +284,33 @@ class TableObj:
     def length(self):
         return self.n
 
+    def contains(self, ev, key, *a):
+        """`"col" in table`: a declared column is there; any other column MAY be there (optional user columns) -- a
+        symbolic boolean, so both outcomes are explored; on the True outcome the column is an arbitrary float column"""
+        if not isinstance(key, str):
+            raise Unsupported("table membership of %r" % (key,))
+        if key in self.columns:
+            return True
+        b = z3.Bool("has!%s.%s" % (self.name, key))
+        self.__dict__.setdefault("optional", {})[key] = b
+        return b
+
     def _col(self, c):
         from .ev import _Raise, ExcVal
         if c not in self.columns:
+            opt = self.__dict__.get("optional", {})
+            if c in opt:
+                a = sym_arr("%s_%s" % (self.name, c), self.n, "f", True)
+                self.columns[c] = Series(self.n, a.f, "f", "%s.%s" % (self.name, c))
+                return self.columns[c]
             raise _Raise(ExcVal("KeyError", (c,)))
         return self.columns[c]
 
     def getattr_(self, ev, attr, lineno):
         if attr == "index":
             return IndexObj(self.index)
-        if attr in self.columns:
-            return self.columns[attr]
+        if attr in self.columns or attr in self.__dict__.get("optional", {}):
+            return self._col(attr)
         if attr == "columns":
             return list(self.columns.keys())
         from .ev import _Raise, ExcVal
